@@ -268,6 +268,7 @@ def run(tier, seed):
     c.outside = ['inputs longer than the stated byte counts', 'positions inside interpolation slots (relative to the slot, not stated)', 'column of an end-of-file parse error', 'position of an integer-overflow lexical error within the literal']
     c.assumptions.append('when the current character is a line feed both (line, len+1) and the implementation-chosen (line+1, 0) are accepted (DESIGN.md 3.2)')
     c.run_family('position-contexts', context_templates(), ('position', 'stack', 'panic'), lambda v: 'position:%s:%s' % (v.get('template'), v.get('ref')), par_templates=2, par_paths=8)
-    c.run_jobs('scanner-invariant', sjobs, par_jobs=len(sjobs), par_paths=max(2, 16 // len(sjobs)), timeout=3000)
+    c.run_jobs('scanner-invariant', sjobs[-1:], par_jobs=1, par_paths=16, timeout=3000)
+    c.run_jobs('scanner-invariant', sjobs[:-1], par_jobs=len(sjobs) - 1, par_paths=max(2, 16 // max(1, len(sjobs) - 1)), timeout=3000)
     c.run_jobs('shift-lemma', jobs, par_jobs=8, par_paths=2)
     return c.finish()
